@@ -118,3 +118,18 @@ M("c15-pieces-reused", "C15", "io/reader.py", '                "pieces": {},\n',
 M("c15-lmax-sticky", "C15", "io/loader.py", '        meta["lmax"] = meta["levelmax"]\n', '        meta["lmax"] = meta.get("lmax", meta["levelmax"])\n', "a level cap of an earlier call stays in force")
 M("c15-variables-sticky", "C15", "io/reader.py", '        read = {key: False for key in descriptor}\n', '        read = {key: (self.variables[key]["read"] if key in self.variables else False) for key in descriptor}\n', "variables read by an earlier call stay switched on for list selections")
 M("c15-early-clear", "C15", "io/ramses.py", "        groups = self.loader.load(*args, meta=self.meta, units=self.units, **kwargs)", "        if kwargs.get('select') is None or isinstance(kwargs.get('select'), dict):\n            self.groups.pop('part', None)  # free memory before re-loading\n        groups = self.loader.load(*args, meta=self.meta, units=self.units, **kwargs)", "an earlier particle group is dropped before the new load: lost when the call is interrupted or does not load particles")
+
+# ---------------------------------------------------------------- C03
+M("c03-unfix-radial", "C03", "plot/map.py", "            xyz[indices_close_to_plane].norm\n            - 0.5 * cell_size[indices_close_to_plane] * diagonal\n        )\n        radial_selection = (\n            radial_distance.values\n", "            xyz[indices_close_to_plane]\n            - 0.5 * cell_size[indices_close_to_plane] * diagonal\n        )\n        radial_selection = (\n            np.abs(radial_distance.norm.values)\n", "component-wise subtraction again (the original defect)")
+M("c03-footprint-no-diagonal", "C03", "plot/utils.py", "        half_size = cell_sizes[n] * diagonal", "        half_size = cell_sizes[n]", "pixel footprint of a cell without the diagonal factor (rotated maps lose corners)")
+M("c03-selection-quarter", "C03", "plot/map.py", "    selection_distance = 0.5 * diagonal * (dz if thick else cell_size)", "    selection_distance = 0.25 * diagonal * (dz if thick else cell_size)", "cells near the plane selected within half the needed distance")
+M("c03-original-basis-swapped", "C03", "plot/map.py", "        cell_positions_in_original_basis_x=coords.x.values / div,\n        cell_positions_in_original_basis_y=(\n            coords.y.values / div if coords.y is not None else None\n        ),", "        cell_positions_in_original_basis_x=coords.y.values / div,\n        cell_positions_in_original_basis_y=(\n            coords.x.values / div if coords.y is not None else None\n        ),", "x/y of the original basis swapped in the containment test")
+M("c03-scale-ratio-inverted", "C03", "plot/map.py", "    scale_ratio = (1.0 * spatial_unit).to(map_unit).magnitude", "    scale_ratio = 1.0 / (1.0 * spatial_unit).to(map_unit).magnitude", "pixel coordinates scaled the wrong way when dx is given in another unit")
+M2("c03-shared-temporary", "C03", [
+    ("plot/utils.py", "    ncells = len(cell_positions_in_new_basis_x)\n    for n in prange(ncells):\n        half_size = cell_sizes[n] * diagonal", "    ncells = len(cell_positions_in_new_basis_x)\n    scratch = np.zeros(1)\n    for n in prange(ncells):\n        scratch[0] = cell_sizes[n] * diagonal\n        half_size = scratch[0]"),
+], "a per-iteration temporary hoisted into one shared buffer: schedule-dependent footprint")
+M("c03-vec-uv-swapped", "C03", "plot/map.py", "                u = uv.dot(vec_u).values\n                v = uv.dot(vec_v).values", "                u = uv.dot(vec_v).values\n                v = uv.dot(vec_u).values", "vector layers projected on the wrong in-plane axes (3-D)")
+M("c03-strict-containment", "C03", "plot/utils.py", "                    ok_x = (\n                        np.abs(\n                            grid_positions_in_original_basis[k, j, i, 0]\n                            - cell_positions_in_original_basis_x[n]\n                        )\n                        <= cell_sizes[n]\n                    )", "                    ok_x = (\n                        np.abs(\n                            grid_positions_in_original_basis[k, j, i, 0]\n                            - cell_positions_in_original_basis_x[n]\n                        )\n                        <= cell_sizes[n] * 0.98\n                    )", "cells shrunk by 2% in x: thin unmapped strips")
+M("c03-origin-unit", "C03", "plot/map.py", "    xyz = position - origin", "    xyz = position - (origin if origin.unit == position.unit else type(origin)(**{c: a.values for c, a in origin._xyz.items()}, unit=position.unit))", "origin given in another unit is not converted")
+M("c03-mask-first-layer", "C03", "plot/map.py", "    mask = np.isnan(binned[-1, ...])", "    mask = np.isnan(binned[-1, ...]) | (binned[0, ...] == 1.0)", "pixels showing the value 1.0 in the first layer are masked")
+M("c03-ix2-no-plus-one", "C03", "plot/utils.py", "            + 1,\n            nx,\n        )", "            + 0,\n            nx,\n        )", "x footprint excludes its last pixel column")
